@@ -1,6 +1,6 @@
 CONFIG = {
     "id": "C06",
-    "coq_targets": ["Props/C06.v", "Model/StatsCheck.v"],
+    "coq_targets": ["Props/C06.v", "Model/StatsCheck.v", "Model/ModifierCheck.v"],
     "prop_files": ["Props/C06.v"],
     "gen": [],
     "components": [{
@@ -9,6 +9,17 @@ CONFIG = {
         "case_type": "case",
         "ops_path": [1],            # input = (world, ops)
         "n_quick": 320, "n_thorough": 8000, "shard": 40,
+    }, {
+        # the modifier manager under EVERY operation that attaches or detaches instances (stacking, ticks and expiry,
+        # dispel, duration / count extension incl. removal at zero, listener-issued operations): after each operation
+        # the STAT_CTRL flag of the evaluated change set and HasFlag must be the union over exactly the instances
+        # attached at that moment (a stale per-target cache shows here)
+        "name": "modifier", "modules": ["Model.Modifier", "Model.ModifierCheck"],
+        "check": "check_case", "monitor": "monitor_case", "model_out": "model_out",
+        "case_type": "case",
+        "ops_path": [3],
+        "mismatch_is_violation": False,
+        "n_quick": 400, "n_thorough": 8000, "shard": 100,
     }],
     "rule": "per case: 2-4 modifier configs (unique / replace / multiple, status type, behaviour flags) registered with the "
             "real modifier.Register; 3 units with base stats / base debuff-res / base weakness maps; 1-3 modifier "
